@@ -50,6 +50,9 @@ type Cluster struct {
 	// Quiet, when larger than the default, is how long the routing view must stay unchanged.
 	Quiet time.Duration
 	lastView string
+	// SigInvariant is the first observed breach of "equal routing signature => equal owners" (see
+	// sampleSignatureInvariant); sampled whenever stabilisation is polled.
+	SigInvariant string
 }
 
 func New(k *simrt.Kernel, n *simnet.Net, spec plan.ClusterSpec) *Cluster {
@@ -334,6 +337,7 @@ func (c *Cluster) Stable() (bool, string) {
 	for _, m := range run {
 		alive[m.Addr] = true
 	}
+	c.sampleSignatureInvariant(run)
 	var first string
 	for i, m := range run {
 		mem, err := m.EC.Members(context.Background())
@@ -387,6 +391,44 @@ func (c *Cluster) Stable() (bool, string) {
 	}
 	c.lastView = first
 	return true, ""
+}
+
+// sampleSignatureInvariant: two members that have applied the same pushed table (equal routing
+// signature) name the same primary owner for every partition. The coordinator amends its own
+// lists after a push (left-over data reports) without a new signature; that may add previous
+// owners but must never change who the owner is. The first breach is kept in SigInvariant.
+func (c *Cluster) sampleSignatureInvariant(run []*Member) {
+	if c.SigInvariant != "" {
+		return
+	}
+	defer func() { recover() }() // a member without its first table yet
+	type view struct {
+		idx int
+		rt  olric.RoutingTable
+	}
+	bySig := map[uint64]view{}
+	for _, m := range run {
+		sig := m.DB.VerifRoutingSignature()
+		if sig == 0 {
+			continue
+		}
+		rt := m.DB.VerifLocalRouting()
+		if prev, ok := bySig[sig]; ok {
+			for id, r := range rt {
+				o := prev.rt[id]
+				if len(r.PrimaryOwners) == 0 || len(o.PrimaryOwners) == 0 {
+					continue
+				}
+				a, b := r.PrimaryOwners[len(r.PrimaryOwners)-1], o.PrimaryOwners[len(o.PrimaryOwners)-1]
+				if a != b {
+					c.SigInvariant = fmt.Sprintf("at %v m%d and m%d have applied the same routing table (signature %x) but name different owners for partition %d: %s vs %s", c.K.Now(), m.Idx, prev.idx, sig, id, a, b)
+					return
+				}
+			}
+		} else {
+			bySig[sig] = view{m.Idx, rt}
+		}
+	}
 }
 
 func (c *Cluster) partitions() uint64 {
